@@ -627,7 +627,7 @@ class Prop(Check):
             ge = obs["grammar_error"]
             if out.get("error") == ge:
                 return None
-            if out.get("error") == "recursion" and ge == "other:RecursionError":
+            if out.get("error") == "recursion" and ge in ("other:RecursionError", "semantic"):   # `A: A;` (C23)
                 return None
             return f"grammar rejected by textX ({ge}) but the mirror says {str(out)[:200]}"
         if "unsupported" in obs:
